@@ -458,6 +458,7 @@ ROUND_HOSTILE = [{'__d__': [[1, 1.26]]}, {'__d__': [[1, 1.24]]}, {'__r__': [0, 3
 # building the decorated function
 
 ALGOS = ['no', 'inf', 'lfu', 'lru', 'mru', 'rr']
+RECREATED = [0]
 
 
 def make_deco(case, maxsize=None, cache=None):
@@ -475,7 +476,19 @@ def make_deco(case, maxsize=None, cache=None):
         kw['deep'] = bool(case.get('deep'))
     if case.get('deco', 'inf') in ('lfu', 'lru', 'mru', 'rr'):
         kw['maxsize'] = 50
-    return cls(**kw)
+    d = cls(**kw)
+    how = case.get('recreate')
+    if how and cache is None:
+        import copy as _copy
+        if how == 'copy':
+            d = _copy.copy(d)
+        elif how == 'deepcopy':
+            d = _copy.deepcopy(d)
+        else:
+            import dill as _dill
+            d = _dill.loads(_dill.dumps(d))
+        RECREATED[0] += 1
+    return d
 
 
 def make_keygen(case):
@@ -550,6 +563,9 @@ def gen_case(rng, prop):
     if prop == 'C12':
         case['tol'] = rng.choice([None, -2, -1, 0, 1, 3])
         case['deep'] = rng.random() < 0.5
+    # the configured decorator is sometimes re-created before it is applied (copied, or pickled as when it is shipped
+    # to a worker): the copy must be configured like the original
+    case['recreate'] = rng.choice([None, None, None, 'copy', 'deepcopy', 'pickle'])
     return case
 
 
@@ -827,6 +843,26 @@ def identity_mech(case, c1, c2):
     return []
 
 
+def memo_only_mech(case, x, y):
+    """witness-derived, on the two keys themselves: the keymap pickles the key with a serializer, the two byte strings
+    differ, and they unpickle to equal keys with identical reprs (same values, same types, same order) - the bytes
+    differ only in where pickle's memo wrote a back-reference, i.e. in which *objects* carry the values (e.g. the
+    ignore names of a decorator that was itself restored from a pickle are no longer the signature's name strings)"""
+    km = case['keymap']
+    if km['cls'] != 'picklemap' or km['type'] is None or km.get('outer'):
+        return []
+    try:
+        import pickle as _p, dill as _d
+        if not (isinstance(x, bytes) and isinstance(y, bytes)) or x == y:
+            return []
+        a, b = _d.loads(x), _d.loads(y)
+        if a == b and repr(a) == repr(b):
+            return ['picklemap-key-depends-on-object-identity']
+    except Exception:
+        pass
+    return []
+
+
 def judge_equiv(J, tgt, f, kg, rng, spec, asg, fixed):
     c1 = spell(rng, spec, asg, tgt.defaults, fixed)
     if rng.random() < 0.25:
@@ -868,7 +904,8 @@ def check_equiv(J, tgt, f, kg, c1, c2, extra_mech=()):
             J.bad('C09', 'equivalent-calls-different-keys',
                   '%s: calls %s and %s bind identically but get keys %s and %s'
                   % (which, srepr(c1), srepr(c2), srepr(x)[:150], srepr(y)[:150]),
-                  mech=nonflat_order_mech(tgt, case, c1, c2) + unrounded_default_mech(tgt, case, c1, c2) + list(extra_mech),
+                  mech=nonflat_order_mech(tgt, case, c1, c2) + unrounded_default_mech(tgt, case, c1, c2) + list(extra_mech)
+                  + memo_only_mech(case, x, y),
                   pair=[enc(list(c1)), enc(list(c2))])
             return
     try:
@@ -1105,7 +1142,8 @@ def judge_ignore(J, tgt, f, kg, rng, spec, asg, fixed, pool):
                     J.bad('C11', 'ignored-argument-changed-key',
                           '%s: ignore=%r; calls %s and %s differ only in ignored %r but keys differ: %s vs %s'
                           % (which, ign, srepr(c1), srepr(c2), slot, srepr(x)[:120], srepr(y)[:120]),
-                          mech=nonflat_order_mech(tgt, case, c1, c2) + dstar_passed_kwonly_mech(case['spec'], ign, c1, c2))
+                          mech=nonflat_order_mech(tgt, case, c1, c2) + dstar_passed_kwonly_mech(case['spec'], ign, c1, c2)
+                          + memo_only_mech(case, x, y))
                     break
             if okk:
                 try:
@@ -1443,7 +1481,11 @@ DIRECTED = {
               'keymap': _km('keymap'), 'deco': 'inf', 'safe': False, 'ignore': ['**']},
              'distinct11', ([1], {'k': 1}), ([1], {'k': 2})),
             ({'spec': _spec(var=True), 'kind': 'func', 'keymap': _km('stringmap', sentinel=True),
-              'deco': 'inf', 'safe': False, 'ignore': []}, 'bare', ([1], {}), (['1'], {}))],
+              'deco': 'inf', 'safe': False, 'ignore': []}, 'bare', ([1], {}), (['1'], {})),
+            # the recorded identity-dependence of pickled keys, reached through a decorator that was itself pickled
+            ({'spec': _spec(req=['a'], dfl=[['d', 'x']]), 'kind': 'func', 'keymap': _km('picklemap', type='dill', flat=False),
+              'deco': 'lru', 'safe': False, 'ignore': ['a'], 'recreate': 'pickle'},
+             'ignored', ([[1]], {'d': 'a'}), ([], {'a': [2], 'd': 'a'}))],
     'C12': [({'spec': _spec(req=['a']), 'kind': 'func', 'keymap': _km('stringmap'), 'deco': 'inf',
               'safe': False, 'tol': 1, 'deep': True}, 'round', ([{'__d__': [[1, 1.26]]}], {}), ([{'__d__': [[1, 1.24]]}], {})),
             ({'spec': _spec(req=['a']), 'kind': 'func', 'keymap': _km('stringmap'), 'deco': 'inf',
@@ -1475,6 +1517,14 @@ def run_directed(prop):
                       'ignore=%r: calls %s and %s differ in non-ignored keyword-only k but share a key %s'
                       % (case['ignore'], srepr(c1), srepr(c2), srepr(ks1[0])[:100]),
                       mech=kwonly_dstar_mech(case['spec'], case['ignore'], ('kwonly', 'k')))
+        elif rel == 'ignored':
+            ks1, _ = _keys(J, tgt, f, kg, *c1)
+            ks2, _ = _keys(J, tgt, f, kg, *c2)
+            J.note('c11_ignored_pairs')
+            if ks1 is not None and ks2 is not None and not _same(ks1[0], ks2[0]):
+                J.bad('C11', 'ignored-argument-changed-key', 'f.key: ignore=%r; calls %s and %s differ only in ignored a but '
+                      'keys differ: %s vs %s' % (case['ignore'], srepr(c1), srepr(c2), srepr(ks1[0])[:120], srepr(ks2[0])[:120]),
+                      mech=memo_only_mech(case, ks1[0], ks2[0]))
         elif rel == 'bare':
             # the recorded str(1) == str('1') collision of flat stringmap(encoding=None), seen from this property
             ks1, _ = _keys(J, tgt, f, kg, *c1)
@@ -1558,6 +1608,7 @@ def run_shard(prop, tier, seed, shard, nshards, opts):
         i += nshards
     mon.stop()
     res['anchors'] = mon.anchors()
+    res['counters']['decorators_recreated_before_use'] = RECREATED[0]
     return res
 
 
